@@ -527,3 +527,5 @@ ASSUMPTIONS = [
 OUTSIDE = ['callbacks that dispatch new events or re-enable dispatching while a release is running',
            'more than 3 deferred events / 3 faulty cycles', 'clear_current / clear_next switches (C13)',
            'threads']
+
+TECHNIQUE = 'bounded symbolic execution (symx/z3) with fault kind and fault position as solver variables (LIA decisions on the delivery index)'
